@@ -744,3 +744,26 @@ mod f38_inherent_align_const {
         assert!(En::validate(&mem).is_ok());
     }
 }
+
+/// Finding 39 (C15, C03), same family as 36 / 38: the generated initialiser returned `Type::from_mut_bytes_unchecked(bytes)`, a
+/// type-qualified path that prefers an inherent function of the user's type with that name over FlatUnsized's.
+#[cfg(test)]
+mod f39_inherent_from_mut_bytes_unchecked {
+    use super::common::*;
+    #[flat(sized = false)]
+    pub struct Msg { pub id: u8, pub items: FlatVec<u8, u8> }
+    impl Msg {
+        /// user helper: maps the header part only
+        pub unsafe fn from_mut_bytes_unchecked(bytes: &mut [u8]) -> &mut Self {
+            <Self as FlatUnsized>::from_mut_bytes_unchecked(&mut bytes[..2])
+        }
+    }
+    #[test]
+    fn new_in_place_returns_the_view_of_the_whole_slice() {
+        let mut mem = AlignedBytes::new(16, 4);
+        // (`new_in_place` maps the bytes again itself; the emplacer's own return value is what `Emplacer::emplace` hands out)
+        let msg = flatty::Emplacer::<Msg>::emplace(MsgInit { id: 1, items: flat_vec![1u8, 2, 3] }, &mut mem).unwrap();
+        assert!(msg.items.len() <= msg.items.capacity(), "len {} > capacity {}", msg.items.len(), msg.items.capacity());
+        assert_eq!(msg.items.as_slice(), &[1, 2, 3]);
+    }
+}
